@@ -745,6 +745,85 @@ pub fn ring_scenario(name: &str, depth: usize, extra: &[Op]) -> Scenario {
     }
 }
 
+/// Documents that alternate (A, B, A, B ...) with and without commits: objects and arrays return to an earlier
+/// content (same digest at a higher index), an element leaves and re-enters the array.
+pub fn alternating_scenario(name: &str, depth: usize, extra: &[Op]) -> Scenario {
+    let docs = vec![json!({"l♭":[x(), y()], "s":"a"}), json!({"l♭":[x2(), z()], "s":"b"}), json!({"l♭":[y(), x()], "s":"a"})];
+    let mut alphabet = vec![Op::Upd(0, 0), Op::Upd(0, 1), Op::Upd(0, 2), Op::Commit(0, 0), Op::Reopen(0), Op::Unstage(0), Op::Sync(1, 0), Op::Travel(0, 0)];
+    alphabet.extend_from_slice(extra);
+    let mut sc = Scenario {
+        name: name.to_string(),
+        nrep: 2,
+        menu: menu(docs),
+        prologue: vec![Op::Upd(0, 0), Op::Commit(0, 0), Op::Sync(1, 0), Op::Upd(0, 1), Op::Commit(0, 0)],
+        alphabet,
+        key_opts: KeyOpts::default(),
+        max_depth: depth,
+        track: true,
+        order: None,
+    };
+    sc.key_opts.heads = true;
+    sc
+}
+
+/// Two levels of flattening: element x carries an inner flattened array. Replica 0 edits the inner array while
+/// replica 1 moves x, deletes x, or edits the inner array differently.
+pub fn nested_conflict_scenario(name: &str, depth: usize, extra: &[Op]) -> Scenario {
+    let inner = |v: Vec<Value>| json!({"_id":"x","v":1,"n♭":v});
+    let docs = vec![
+        json!({"l♭":[inner(vec![z()]), y()]}),
+        json!({"l♭":[inner(vec![z(), json!({"_id":"w","v":1})]), y()]}),
+        json!({"l♭":[y(), inner(vec![z()])]}),
+        json!({"l♭":[y()]}),
+        json!({"l♭":[inner(vec![json!({"_id":"u","v":1}), z()]), y()]}),
+        json!({"l♭":[y()], "m♭":[inner(vec![z()])]}),
+    ];
+    let mut alphabet = vec![Op::Upd(0, 1), Op::Commit(0, 0), Op::Upd(1, 2), Op::Upd(1, 3), Op::Upd(1, 4), Op::Upd(1, 5), Op::Commit(1, 0), Op::Sync(0, 1), Op::Sync(1, 0), Op::Reopen(1)];
+    for j in 0..2 {
+        for k in 0..2 {
+            alphabet.push(Op::Resolve(1, j, k));
+        }
+    }
+    alphabet.extend_from_slice(extra);
+    Scenario {
+        name: name.to_string(),
+        nrep: 2,
+        menu: menu(docs),
+        prologue: vec![Op::Upd(0, 0), Op::Commit(0, 0), Op::Sync(1, 0)],
+        alphabet,
+        key_opts: KeyOpts::default(),
+        max_depth: depth,
+        track: true,
+        order: None,
+    }
+}
+
+/// An object without identifier in a flattened NON-array field (its identifier is generated from the path): its
+/// content changes on both replicas, and the field changes kind.
+pub fn idless_field_scenario(name: &str, depth: usize, extra: &[Op]) -> Scenario {
+    let docs = vec![
+        json!({"o♭":{"k":1}, "l♭":[x()]}),
+        json!({"o♭":{"k":2}, "l♭":[x()]}),
+        json!({"o♭":{"k":3,"q♭":{"r":1}}, "l♭":[x()]}),
+        json!({"o♭":[{"k":1}], "l♭":[x()]}),
+        json!({"o♭":"s", "l♭":[x()]}),
+        json!({"l♭":[x()], "p♭":{"k":1}}),
+    ];
+    let mut alphabet = vec![Op::Upd(0, 1), Op::Upd(0, 3), Op::Commit(0, 0), Op::Upd(1, 2), Op::Upd(1, 4), Op::Upd(1, 5), Op::Commit(1, 0), Op::Sync(0, 1), Op::Sync(1, 0), Op::Reopen(1), Op::Resolve(1, 0, 0), Op::Resolve(1, 0, 1)];
+    alphabet.extend_from_slice(extra);
+    Scenario {
+        name: name.to_string(),
+        nrep: 2,
+        menu: menu(docs),
+        prologue: vec![Op::Upd(0, 0), Op::Commit(0, 0), Op::Sync(1, 0)],
+        alphabet,
+        key_opts: KeyOpts::default(),
+        max_depth: depth,
+        track: true,
+        order: None,
+    }
+}
+
 pub fn combo_scenarios(thorough: bool) -> Vec<Scenario> {
     let d = |q: usize, t: usize| if thorough { t } else { q };
     vec![
@@ -755,6 +834,9 @@ pub fn combo_scenarios(thorough: bool) -> Vec<Scenario> {
         discard_redo_scenario("combo-discard-and-redo", d(5, 6), &[]),
         local_supply_scenario("combo-local-commit-supplies-a-held-back-block", d(4, 5), &[]),
         ring_scenario("combo-ring", d(3, 4), &[]),
+        alternating_scenario("combo-alternating-documents", d(4, 5), &[]),
+        nested_conflict_scenario("combo-nested-flattening-conflict", d(4, 5), &[]),
+        idless_field_scenario("combo-idless-object-in-flattened-field", d(4, 5), &[]),
     ]
 }
 
